@@ -1075,6 +1075,11 @@ func opBurst(q request) map[string]any {
 	// release the held handlers one at a time, in random order among those that entered
 	released := map[int]bool{}
 	for len(released) < total {
+		// the event count is read BEFORE looking for held handlers: an `enter` logged in between
+		// changes it and the wait below returns at once
+		rec.mu.Lock()
+		n0 := len(rec.events)
+		rec.mu.Unlock()
 		var cand []*callSt
 		for _, cs := range all {
 			if released[cs.id] {
@@ -1089,7 +1094,6 @@ func opBurst(q request) map[string]any {
 		if len(cand) == 0 {
 			// nothing held: wait for the next handler to enter (watchdog)
 			rec.mu.Lock()
-			n0 := len(rec.events)
 			t0 := time.Now()
 			for len(rec.events) == n0 && time.Since(t0) < 10*time.Second {
 				waitCond(rec.cond, 50*time.Millisecond)
